@@ -16,7 +16,7 @@ if [ -f "$MUT/demo.py" ]; then
   PYTHONPATH="$WT" /venv/bin/python "$MUT/demo.py" >/dev/null 2>&1; echo "demo without change: exit $?"
 fi
 git apply "$MUT/patch.diff" || { echo "PATCH DOES NOT APPLY"; exit 2; }
-echo "tests with change: $(PYTHONPATH="$WT" /venv/bin/python -m pytest -q -p no:cacheprovider -x 2>&1 | grep -E 'passed|failed|error' | tail -1)"
+echo "tests with change: $(PYTHONPATH="$WT" timeout 300 /venv/bin/python -m pytest -q -p no:cacheprovider -x 2>&1 | grep -E 'passed|failed|error' | tail -1)"
 if [ -f "$MUT/demo.py" ]; then
   PYTHONPATH="$WT" /venv/bin/python "$MUT/demo.py" >/dev/null 2>&1; echo "demo with change: exit $?"
 fi
